@@ -19,7 +19,7 @@ RULE = (
     "anchored = length), indels, anywhere/rightmost, linked required flags, precedence adapter > file > global. A "
     "second generator renders the documented INVALID combinations: exit status 2 and an error message. The structural "
     "product option x restriction x parameter subset x linked x file variant is enumerated exhaustively. "
-    "Non-trivial: >= 2 parameter levels set for the same key, or a restriction combined with parameters, or a "
+    "Sub-check 'multi' builds 2-3 specifications in one call (and a second time from the same defaults, as the command line does for R2): each adapter must mean what its own specification says whatever stands before it. Non-trivial: >= 2 parameter levels set for the same key, or a restriction combined with parameters, or a "
     "linked/file variant; invalid cases count as non-trivial."
 )
 ASSUMPTIONS = [
@@ -306,17 +306,14 @@ def render_valid(case):
     return tmap[case["opt"]], spec, files
 
 
-def check_valid(case, ctx):
-    from cutadapt import adapters as A
+def build_specs(pairs, files, glob, twice=False):
+    """Build adapters for [(type, spec)...] in one call, in a scratch directory holding `files`."""
     from cutadapt.parser import make_adapters_from_specifications
     import os
+    import shutil
     import tempfile
 
-    ctype, spec, files = render_valid(case)
-    glob = case["glob"]
     cli.reset_globals()
-    ctx.label("variant:" + case["variant"])
-    ctx.label("opt:" + case["opt"])
     cwd = os.getcwd()
     d = tempfile.mkdtemp(prefix="c18", dir=cli.scratch_root())
     try:
@@ -324,35 +321,40 @@ def check_valid(case, ctx):
         for n, c in files.items():
             with open(n, "w") as fh:
                 fh.write(c)
-        try:
-            built = make_adapters_from_specifications([(ctype, spec)], global_params(glob))
-        except Exception as e:  # noqa
-            raise Violation(f"valid specification -{case['opt']} {spec!r} (global {glob}) was rejected: "
-                            f"{type(e).__name__}: {e}", observed=str(e))
+        params = global_params(glob)
+        built = make_adapters_from_specifications(pairs, params)
+        if twice:
+            # the command line builds the R1 and then the R2 adapters from the same parameter dict
+            built2 = make_adapters_from_specifications(pairs, params)
+            return built, built2
+        return built
     finally:
         os.chdir(cwd)
-        import shutil
         shutil.rmtree(d, ignore_errors=True)
-    what = f"-{case['opt']} {spec!r} (global {glob})" + (f" file {files}" if files else "")
-    nt = False
+
+
+def verify_built(case, built, what, auto_name="1"):
+    """Compare the adapters built for one specification with its meaning. Returns non-triviality."""
+    from cutadapt import adapters as A
+
+    glob = case["glob"]
     v = case["variant"]
     if v in ("plain", "ellipsis"):
         if len(built) != 1:
             raise Violation(f"{what}: {len(built)} adapters built", observed=len(built))
         p = case["parts"][0]
-        compare(observed_single(built[0]), expected_single(p, None, glob, case["name"], "1"), what)
+        compare(observed_single(built[0]), expected_single(p, None, glob, case["name"], auto_name), what)
         keys = {k for k, _ in p["params"]}
-        nt = False
-        nt = nt or bool(p["restriction"] and keys) or (("e" in keys and "e" in glob) or ("o" in keys and "O" in glob)
-                                                       or ("indels" in keys and "indels" in glob))
-    elif v == "linked":
+        return bool(p["restriction"] and keys) or (("e" in keys and "e" in glob) or ("o" in keys and "O" in glob)
+                                                   or ("indels" in keys and "indels" in glob))
+    if v == "linked":
         if len(built) != 1 or not isinstance(built[0], A.LinkedAdapter):
             raise Violation(f"{what}: expected one linked adapter, got {[type(b).__name__ for b in built]}")
         la = built[0]
         fp, bp = case["parts"]
         compare(observed_single(la.front_adapter, False), expected_single(fp, None, glob, False, None), what + " [5' part]")
         compare(observed_single(la.back_adapter, False), expected_single(bp, None, glob, False, None), what + " [3' part]")
-        exp_name = case["name"] if case["name"] is not None else "1"
+        exp_name = case["name"] if case["name"] is not None else auto_name
         if la.name != exp_name:
             raise Violation(f"{what}: linked adapter name {la.name!r}, expected {exp_name!r}")
         fparams, bparams = dict(fp["params"]), dict(bp["params"])
@@ -367,20 +369,83 @@ def check_valid(case, ctx):
         if (not undetermined_f and la.front_required != fr) or (not undetermined_b and la.back_required != br):
             raise Violation(f"{what}: required flags (5', 3') = ({la.front_required}, {la.back_required}), documented: "
                             f"({fr}, {br})", observed=[la.front_required, la.back_required], expected=[fr, br])
-        nt = True
-    else:
-        f = case["file"]
-        if len(built) != len(f["records"]):
-            raise Violation(f"{what}: {len(built)} adapters built from {len(f['records'])} FASTA records")
-        fparams = dict(f["params"])
-        for a, r in zip(built, f["records"]):
-            p = dict(r["part"])
-            if f["anchor"]:
-                p["restriction"] = "anchored"
-            compare(observed_single(a), expected_single(p, fparams, glob, r["name"], None), what + f" [record {r['name']}]")
-        nt = True
-    if nt:
+        return True
+    f = case["file"]
+    if len(built) != len(f["records"]):
+        raise Violation(f"{what}: {len(built)} adapters built from {len(f['records'])} FASTA records")
+    fparams = dict(f["params"])
+    for a, r in zip(built, f["records"]):
+        p = dict(r["part"])
+        if f["anchor"]:
+            p["restriction"] = "anchored"
+        compare(observed_single(a), expected_single(p, fparams, glob, r["name"], None), what + f" [record {r['name']}]")
+    return True
+
+
+def n_built(case):
+    return len(case["file"]["records"]) if case["variant"] == "file" else 1
+
+
+def check_valid(case, ctx):
+    ctype, spec, files = render_valid(case)
+    glob = case["glob"]
+    ctx.label("variant:" + case["variant"])
+    ctx.label("opt:" + case["opt"])
+    try:
+        built = build_specs([(ctype, spec)], files, glob)
+    except Exception as e:  # noqa
+        raise Violation(f"valid specification -{case['opt']} {spec!r} (global {glob}) was rejected: "
+                        f"{type(e).__name__}: {e}", observed=str(e))
+    what = f"-{case['opt']} {spec!r} (global {glob})" + (f" file {files}" if files else "")
+    if verify_built(case, built, what):
         ctx.nontrivial_case({"spec": f"-{case['opt']} {spec}", "global": glob})
+
+
+@st.composite
+def multi_case(draw):
+    glob = draw(glob_strategy())
+    cases = []
+    for i in range(draw(st.integers(2, 3))):
+        c = draw(valid_case())
+        c["glob"] = glob
+        if c["variant"] != "file" and c["name"] is None:
+            c["name"] = f"n{i}"
+        if c["variant"] == "file":
+            for r in c["file"]["records"]:
+                r["name"] = f"f{i}{r['name']}"
+        cases.append(c)
+    return {"sub": "multi", "glob": glob, "cases": cases}
+
+
+def check_multi(case, ctx):
+    """Several specifications in one invocation: each adapter must mean what its own specification says,
+    whatever stands before or after it (and the R2 adapters are built from the same defaults afterwards)."""
+    pairs, files = [], {}
+    for i, c in enumerate(case["cases"]):
+        ctype, spec, fl = render_valid(c)
+        for n, content in fl.items():
+            nn = f"ad{i}.fa"
+            spec = spec.replace(n, nn)
+            files[nn] = content
+        pairs.append((ctype, spec))
+    glob = case["glob"]
+    try:
+        built, built2 = build_specs(pairs, files, glob, twice=True)
+    except Exception as e:  # noqa
+        raise Violation(f"valid specifications {pairs} (global {glob}) were rejected: {type(e).__name__}: {e}")
+    for which, blist in (("first call", built), ("second call with the same defaults", built2)):
+        pos = 0
+        for c, (ctype, spec) in zip(case["cases"], pairs):
+            k = n_built(c)
+            what = f"{spec!r} among {[p[1] for p in pairs]} (global {glob}, {which})"
+            verify_built(c, blist[pos:pos + k], what)
+            pos += k
+        if pos != len(blist):
+            raise Violation(f"{len(blist)} adapters built, expected {pos} ({pairs})")
+    ctx.label("specs:%d" % len(pairs))
+    if any(c["variant"] == "file" and c["file"]["params"] for c in case["cases"][:-1]):
+        ctx.label("file-params-before-other-spec")
+    ctx.nontrivial_case({"specs": [p[1] for p in pairs], "global": glob})
 
 
 # ----------------------------------------------------------------------------- invalid
@@ -503,15 +568,18 @@ def sweep_valid(spec):
 
 SUBS = {
     "valid": Sub(strategy=lambda tier: valid_case(), check=check_valid, sweep=sweep_valid),
+    "multi": Sub(strategy=lambda tier: multi_case(), check=check_multi),
     "invalid": Sub(strategy=lambda tier: invalid_case(), check=check_invalid),
 }
 
 
 def plan(tier):
     if tier == "quick":
-        return [{"sub": "valid", "kind": "hyp", "examples": 3000} for _ in range(8)] + \
+        return [{"sub": "valid", "kind": "hyp", "examples": 3000} for _ in range(7)] + \
+               [{"sub": "multi", "kind": "hyp", "examples": 1500} for _ in range(4)] + \
                [{"sub": "invalid", "kind": "hyp", "examples": 400} for _ in range(3)] + \
                [{"sub": "valid", "kind": "sweep"}]
-    return [{"sub": "valid", "kind": "hyp", "examples": 80000} for _ in range(10)] + \
+    return [{"sub": "valid", "kind": "hyp", "examples": 80000} for _ in range(8)] + \
+           [{"sub": "multi", "kind": "hyp", "examples": 40000} for _ in range(4)] + \
            [{"sub": "invalid", "kind": "hyp", "examples": 5000} for _ in range(4)] + \
            [{"sub": "valid", "kind": "sweep"}]
